@@ -929,7 +929,9 @@ pub fn find_line(ctx: &Ctx, id: &[u8], b: &[u8]) -> String {
     let Ok(arr): Result<[u8; 32], _> = id.try_into() else { return "bad-op".into() };
     let txid = bitcoin::Txid::from_byte_array(arr);
     let mut v = bsl::FindTransaction::new(txid);
+    let a0 = crate::allocs();
     let r = pc(|| bsl::Block::visit(b, &mut v).map(|_| ()));
+    let find_allocs = crate::allocs() - a0;
     let found = v.tx_found();
     let fs = match &found {
         Some(tx) => format!("{}:{}", serialize(tx).len(), hex(&tx.compute_txid().to_byte_array())),
@@ -968,6 +970,10 @@ pub fn find_line(ctx: &Ctx, id: &[u8], b: &[u8]) -> String {
             }
         };
         line.push_str(&format!(" #find={}", o));
+        // a search that finds nothing is a plain visit: no heap allocation (C05)
+        if found.is_none() && r.is_ok() {
+            line.push_str(&format!(" findalloc={}", find_allocs));
+        }
     }
     line
 }
